@@ -39,10 +39,21 @@ func (s *btSys) Ops() []seqmc.Op {
 	for k := 0; k < s.keys; k++ {
 		ops = append(ops, op("Put", k, 0), op("Put", k, 1), op("Remove", k))
 	}
+	// a callback that changes the tree while it is being traversed (the package's own test removes the
+	// visited keys this way): when the first key is visited, another present key is removed or overwritten.
+	// The traversal is a live view: what it has not reached yet is visited as it is when it gets there.
+	for k := 0; k < s.keys; k++ {
+		if _, present := s.model[k]; present && len(s.model) >= 2 {
+			ops = append(ops, op("TraverseRemoving", k), op("TraverseOverwriting", k))
+		}
+	}
 	return ops
 }
 
 func (s *btSys) OpClass(o seqmc.Op) string {
+	if strings.HasPrefix(o.N, "Traverse") {
+		return o.N
+	}
 	k := o.I[0]
 	_, present := s.model[k]
 	st := "absent-never-inserted"
@@ -64,6 +75,47 @@ func (s *btSys) Apply(o seqmc.Op, c *seqmc.Ctx) {
 	case "Remove":
 		s.t.Remove(k)
 		delete(s.model, k)
+	case "TraverseRemoving", "TraverseOverwriting":
+		var keys []int
+		for m := range s.model {
+			keys = append(keys, m)
+		}
+		sort.Ints(keys)
+		first := keys[0]
+		newVal := bstVals[0]
+		if s.model[k] == newVal {
+			newVal = bstVals[1]
+		}
+		var want, got []string
+		for _, m := range keys {
+			if m == first {
+				want = append(want, fmt.Sprintf("%d=%s", m, s.model[m]))
+				if o.N == "TraverseRemoving" {
+					delete(s.model, k)
+				} else {
+					s.model[k] = newVal
+				}
+				continue
+			}
+			if v, ok := s.model[m]; ok {
+				want = append(want, fmt.Sprintf("%d=%s", m, v))
+			}
+		}
+		visits := 0
+		s.t.Traverse(func(key int, v string) {
+			got = append(got, fmt.Sprintf("%d=%s", key, v))
+			if visits == 0 {
+				if o.N == "TraverseRemoving" {
+					s.t.Remove(k)
+				} else {
+					s.t.Put(k, newVal)
+				}
+			}
+			visits++
+		})
+		if fmt.Sprint(got) != fmt.Sprint(want) {
+			c.Soft("BTree."+o.N+"/visits-differ-from-the-live-view", "%s(%d) (done when the first key %d is visited) visited %v, want %v", o.N, k, first, got, want)
+		}
 	}
 }
 
